@@ -118,13 +118,17 @@ Proof. exact step_token. Qed.
 
 (* ==== histories that contain migrations ====
    `dstep`/`drun` act on the deployed contract (code it runs, wasm admin, cw2 record,
-   state): a transaction is a call (as above) or a migration to the sg721-updatable code,
-   which the chain lets only the admin perform. *)
+   state): a transaction is a call (as above) or a migration (to the sg721-updatable code, or with the
+   contract's own code), which the chain lets only the admin perform. *)
 
-(* a migration keeps tokens, count, operators, the minter, collection info and its freeze *)
-Theorem C09_migration_keeps_tokens_and_info : forall self e d d' ms,
-  dstep self e AMigrate d = Ok (d', ms) ->
-  d_admin d = sender e /\ d_ct d' = Updatable /\
+(* a migration - to the sg721-updatable code (AMigrate) or through the variant's own migrate
+   entry point with the code it already runs (AMigrateSelf: Sg721Contract::migrate for
+   sg721-base, the sg721-updatable / metadata-onchain / nt migrates) - is the admin's, and
+   keeps tokens, count, operators, the minter, collection info and its freeze *)
+Theorem C09_migration_keeps_tokens_and_info : forall self e a d d' ms,
+  a = AMigrate \/ a = AMigrateSelf ->
+  dstep self e a d = Ok (d', ms) ->
+  d_admin d = sender e /\
   tokens (d_st d') = tokens (d_st d) /\ token_count (d_st d') = token_count (d_st d) /\
   operators (d_st d') = operators (d_st d) /\ own (d_st d') = own (d_st d) /\
   info (d_st d') = info (d_st d) /\ frozen (d_st d') = frozen (d_st d).
@@ -229,6 +233,8 @@ Example C09_ex_frozen_survives_legacy_migration :
   let d := drun 11 d0 [(c09_at 1001 10, ACall (OMint 1 15 (Some 1)));
                        (c09_at 1002 12, ACall OFreezeTokenMd);
                        (c09_at 1003 15, AMigrate);
+                       (c09_at 1004 12, AMigrateSelf);
+                       (c09_at 1004 12, AMigrateSelf);
                        (c09_at 1004 12, AMigrate)] in
   d_ver d = CUR_VERSION /\ d_name d = NUpd /\ md_frozen (d_st d) = true /\
   dstep 11 (mkEnv 1005 12 [mkCoin NATIVE 1500000000]) (ACall OEnableUpdatable) d = Err /\
